@@ -18,7 +18,7 @@ pub fn property() -> Property {
     Property {
         id: "C16",
         level: "exploration",
-        rule: "Random operation sequences (<= 25 ops, values from small domains so that collisions are frequent) over {new session, clone session, every session setter, header/header_append with colliding names in mixed case, create a builder with each method, every builder setter, headers_mut, prepare, send} are executed in lock-step on the real objects and on a value model in which a builder copies its session's values at creation and nothing flows back or sideways. Header values include obs-text that is not UTF-8 and non-ASCII UTF-8. bearer_auth / basic_auth on live requests (set semantics). After EVERY operation the guarded settings snapshot (hook H4) of EVERY live session/builder must equal its model; every send is observed on the wire with one probe: header probe (all header fields sent vs model incl. Accept/User-Agent defaults and Accept-Encoding iff compression allowed), redirect probe (endless 302: number of requests == max_redirections+1, or 1 when following is off), (every third header probe is preceded by a send of an unrelated session that fails while its request is being written: nothing of it may appear on the probed request's connection), header-limit probe (exactly max_headers fields accepted, max_headers+1 refused), proxy probe (address dialled), plus the timeouts / TLS flags / root count handed to the connector (DialRequest). 'env-at-creation': the proxy variables are changed between the creation of a session / request / PreparedRequest and its send (3 x 3 environments x 7 kinds of object, Session::default() among them): the route is the one of the environment at creation. A set/append that is refused (line break in the value) leaves the session unchanged; bearer_auth / basic_auth on a request SET its Authorization field (sessions carry Authorization defaults too). In the threads generator the objects are then distributed over 2..8 barrier-started threads that keep operating on their own clones and sending concurrently; each thread checks its objects against its own copy of the model and the parent checks that the originals did not change. Non-trivial: sequence contains >= 1 send and >= 2 live objects; distinct = hash(op sequence).",
+        rule: "Random operation sequences (<= 25 ops, values from small domains so that collisions are frequent) over {new session, clone session, every session setter, header/header_append with colliding names in mixed case, create a builder with each method, every builder setter, headers_mut, prepare, send} are executed in lock-step on the real objects and on a value model in which a builder copies its session's values at creation and nothing flows back or sideways. Header values include obs-text that is not UTF-8 and non-ASCII UTF-8. bearer_auth / basic_auth on live requests (set semantics). After EVERY operation the guarded settings snapshot (hook H4) of EVERY live session/builder must equal its model; every send is observed on the wire with one probe: header probe (all header fields sent vs model incl. Accept/User-Agent defaults and Accept-Encoding iff compression allowed), redirect probe (endless 302: number of requests == max_redirections+1, or 1 when following is off), (every third header probe is preceded by a send of an unrelated session that fails while its request is being written: nothing of it may appear on the probed request's connection), header-limit probe (exactly max_headers fields accepted, max_headers+1 refused), proxy probe (address dialled), plus the timeouts / TLS flags / root count handed to the connector (DialRequest). 'connect-reply-header-limit': max_headers (3/10/100/150, set on session or request) also governs the proxy's reply to a CONNECT (a refusal with exactly that many fields is a ConnectError, one more a header-limit error). 'env-at-creation': the proxy variables are changed between the creation of a session / request / PreparedRequest and its send (3 x 3 environments x 7 kinds of object, Session::default() among them): the route is the one of the environment at creation. A set/append that is refused (line break in the value) leaves the session unchanged; bearer_auth / basic_auth on a request SET its Authorization field (sessions carry Authorization defaults too). In the threads generator the objects are then distributed over 2..8 barrier-started threads that keep operating on their own clones and sending concurrently; each thread checks its objects against its own copy of the model and the parent checks that the originals did not change. Non-trivial: sequence contains >= 1 send and >= 2 live objects; distinct = hash(op sequence).",
         assumptions: &["root certificates are counted, not compared", "thread schedules are whatever the OS produces (Miri adds randomised schedules in the thorough tier when available)"],
         min_nontrivial: |t| t.pick(2_000, 60_000),
         gens,
@@ -31,6 +31,7 @@ fn gens(tier: Tier) -> Vec<Gen> {
     vec![
         Gen { name: "sequences", count: tier.pick(5_000, 250_000), exhaustive: false, run: run_sequence },
         Gen { name: "threads", count: tier.pick(300, 8_000), exhaustive: false, run: run_threads },
+        Gen { name: "connect-reply-header-limit", count: (4 * 2 * 2) as u64, exhaustive: true, run: run_connect_reply_limit },
         Gen { name: "env-at-creation", count: (3 * 3 * 7) as u64, exhaustive: true, run: run_env_at_creation },
     ]
 }
@@ -521,6 +522,40 @@ fn run_sequence(ctx: &mut Ctx, rng: &mut Rng, _index: u64) {
         ctx.nontrivial(format!("{log:?}").as_bytes());
     }
     ctx.sample(|| json!({"ops": log, "sessions": state.sessions.len(), "requests": state.reqs.len()}));
+}
+
+/// max_headers is ONE setting with two consumers: the response head and, for a tunnelled request, the
+/// proxy's reply to the CONNECT. The value that flowed from the session / request governs both: a
+/// refusal with exactly max_headers fields is a ConnectError, one field more is a header-limit error
+fn run_connect_reply_limit(ctx: &mut Ctx, _rng: &mut Rng, index: u64) {
+    let limit = [3usize, 10, 100, 150][(index % 4) as usize];
+    let over = (index / 4) % 2 == 1;
+    let on_session = (index / 8) % 2 == 1;
+    let n = if over { limit + 1 } else { limit };
+    let mut wire = b"HTTP/1.1 403 Forbidden\r\n".to_vec();
+    for i in 0..n {
+        wire.extend_from_slice(format!("X-P{i}: {i}\r\n").as_bytes());
+    }
+    wire.extend_from_slice(b"\r\n");
+    let _world = World::install(move |_, _, _| Answer::Script(vec![Step::Data(wire.clone()), Step::Eof], WriteFaults::default()));
+    let ps = attohttpc::ProxySettings::builder().https_proxy(url::Url::parse("http://p1.test:3128").unwrap()).build();
+    let mut sess = Session::new();
+    sess.proxy_settings(ps);
+    if on_session {
+        sess.max_headers(limit);
+    }
+    let mut rb = sess.get("https://origin.test/c16");
+    if !on_session {
+        rb = rb.max_headers(limit);
+    }
+    let res = rb.send();
+    let shown = res.as_ref().map(|r| r.status().as_u16()).map_err(|e| format!("{e:?}"));
+    let is_connect_error = matches!(&res, Err(e) if matches!(e.kind(), attohttpc::ErrorKind::ConnectError { .. }));
+    ctx.count("connect_reply_header_limit_cases", 1);
+    if res.is_ok() || is_connect_error == over {
+        ctx.violation("wire:connect-reply-header-limit-differs", format!("max_headers = {limit} set on the {}; the proxy refuses the CONNECT with a head of {n} fields: {shown:?} (expected {})", if on_session { "session" } else { "request" }, if over { "a header-limit error" } else { "ConnectError(403)" }));
+    }
+    ctx.nontrivial(format!("crl{index}").as_bytes());
 }
 
 /// the proxy a session / request uses when none was set explicitly comes from the environment AS IT
